@@ -51,7 +51,10 @@ pub fn plan_roundtrip(req: &Value) -> Value {
     match serde_json::from_str::<Plan>(&t1) {
         Ok(p2) => {
             let t2 = serde_json::to_string_pretty(&p2).unwrap_or_default();
-            json!({"ok": true, "t1": t1, "same": t1 == t2})
+            // compare as JSON values: HashMap iteration order is not part of the contract
+            let v1: Value = serde_json::from_str(&t1).unwrap_or(Value::Null);
+            let v2: Value = serde_json::from_str(&t2).unwrap_or(Value::Null);
+            json!({"ok": true, "t1": t1, "same": v1 == v2})
         }
         Err(e) => json!({"ok": false, "t1": t1, "de_err": e.to_string()}),
     }
